@@ -18,7 +18,7 @@ META = {
     "rule": "a case = (program, call history); after every call the circuit the history continues with must denote the original state (R1 mixture of final states, "
             "and both real compilers on a deep copy) and, for non-rewriting calls, have an identical deep fingerprint (operations, registers, noise objects); "
             "non-trivial = history contains a rewriting or noise-deriving call followed by another call; distinct = distinct (program, history)",
-    "bounds": {"quick": "30 programs x all histories of <= 2 calls over a 16-call menu, 12 programs x all histories of 3 calls; targets: all graphs n<=3 x 3 forms x all orders of 3 calls",
+    "bounds": {"quick": "30 programs x all histories of <= 2 calls over a 17-call menu, 12 programs x all histories of 3 calls; targets: all graphs n<=3 x 3 forms x all orders of 3 calls",
                "thorough": "28 programs x all histories of <= 3 calls; targets n<=4"},
     "assumptions": ["python's copy.deepcopy is used by the harness (not by the subject) to take behaviour snapshots",
                     "compile under noise_simulation=True with the density-matrix back end exposes any noise object attached to an operation"],
@@ -52,7 +52,7 @@ PROGRAMS = [
     [["W", ["P", "H"], "p", 0], ["1", "X", "e", 0], ["W", ["P", "H"], "e", 0], ["1", "Z", "e", 0], ["CZ", "e", 0, "p", 0], ["W", ["P", "H"], "p", 0]],
 ]
 CALLS = ["copy", "unwrap", "group", "rmid", "noise_empty", "noise_real", "compile_stab", "compile_dm_noise", "compile_dm",
-         "infidelity", "metrics", "compare_direct", "compare_iso", "export", "compile_twice", "compile_init"]
+         "infidelity", "metrics", "compare_direct", "compare_iso", "export", "compile_twice", "compile_init", "mc_noise"]
 INIT_INDEX = 23  # a 2-qubit stabilizer state used as the caller-owned initial state
 REWRITES = {"unwrap", "group", "rmid"}
 RETURNS_EQUIVALENT = {"copy", "noise_empty"}
@@ -202,6 +202,20 @@ def do_call(name, circ, layout, ctx):
                 if bad0 is not None:
                     ctx["viol"].append(("initial-state", "compile:" + backend, "callers-initial-state-changed-by-compile (%s)" % bad0))
                     break
+        return circ
+    if name == "mc_noise":
+        # Monte-Carlo noisy copies derived from the circuit (real generator, seeded); the circuit itself must stay noise free
+        import graphiq.noise.noise_models as nm
+        from graphiq.noise.monte_carlo_noise import MonteCarloNoise, McNoiseMap
+        letters = gq.circuit_letters(circ)
+        if any(l[0] in ("CNOT", "CZ", "CCNOT", "CCZ", "MCR") and l[1] == "p" for l in letters):
+            return circ  # the Monte-Carlo map has no photon-controlled entries
+        mp = McNoiseMap()
+        mp.add_gate_noise("e", "Hadamard", [(nm.PauliError("X"), 0.5), (nm.PauliError("Z"), 0.25)])
+        mp.add_gate_noise("p", "Hadamard", [(nm.PauliError("Y"), 0.5)])
+        mp.add_gate_noise("ep", "CNOT", [(nm.PauliError("X"), 0.5)])
+        mc = MonteCarloNoise(circ, 3, mp, su.compiler("stab", 1), seed=1)
+        mc.run()
         return circ
     if name == "infidelity":
         n = layout[0] + layout[1]
